@@ -69,7 +69,10 @@ def components(env, **cfg):
             env.eq("C09", "ScaleToPG: %s == (B nx, ny, nz) (normal of the stretched geometry up to scale)" % n, so[n],
                    si[src] * np.array([B, 1, 1], dtype=object if env.sym else float))
         elif "rotational_velocities" in n:
-            continue
+            # documented rule for velocities in the stretched domain: (B^2 vx, B vy, B vz) - the rotational velocity field
+            # omega' x (r' - cg') of the stretched geometry r' = (x, B y, B z) turning at omega' = (wx, B wy, B wz)
+            env.eq("C09", "ScaleToPG: %s == (B^2 vx, B vy, B vz) (velocity of the stretched geometry turning at (wx, B wy, B wz))" % n,
+                   so[n], si[src] * np.array([B * B, B, B], dtype=object if env.sym else float))
         else:
             env.eq("C09", "ScaleToPG: %s: y and z stretched by B = sqrt(1 - M^2)" % n, so[n], si[src] * stretch)
     gi = sf.inputs(Mach_number=si["Mach_number"])
@@ -160,15 +163,16 @@ def kernel_rotation(env):
 
 
 @job("c09.mach0", ("C09",), cfgs=[dict(nx=2, ny=3, symmetry=True, side="left", nsurf=1), dict(nx=2, ny=2, symmetry=False, nsurf=1),
+                                   dict(nx=2, ny=2, symmetry=True, side="left", nsurf=1, rotational=True),
                                    dict(nx=2, ny=2, symmetry=True, side="right", nsurf=2, tail_sym=False, _tier=T)], ranges=RG9, cost=40)
-def mach0(env, **cfg):
+def mach0(env, rotational=False, **cfg):
     """at Mach 0 and zero sideslip the compressible and the incompressible solvers coincide.  The incompressible run is
     expressed in the wind frame through the kernel rotation lemma (c09.kernel_rotation), where the compressible solver
     works; the linear solve is carried by the residual-identity lemma"""
     from .. import helpers
     surfs = surfaces_for(cfg)
-    gc = gsx.GroupSX(env, gsx.aero_model(surfs, compressible=True), key="C")
-    gi = gsx.GroupSX(env, gsx.aero_model(surfs, compressible=False), key="I")
+    gc = gsx.GroupSX(env, gsx.aero_model(surfs, compressible=True, rotational=rotational), key="C")
+    gi = gsx.GroupSX(env, gsx.aero_model(surfs, compressible=False, rotational=rotational), key="I")
     given = base_inputs(env, gc, surfs)
     given["beta"] = env.const(np.zeros(1))
     given["Mach_number"] = env.const(np.zeros(1))
